@@ -14,6 +14,7 @@ import (
 	"strings"
 	"syscall"
 	"time"
+	"unicode/utf8"
 
 	"github.com/pkg/errors"
 	"github.com/tonistiigi/fsutil"
@@ -74,7 +75,9 @@ func c18Follow(fs fsutil.FS, reqs []string) Sx {
 		}()
 		res, err := fsutil.FollowLinks(fs, reqs)
 		if err != nil {
-			if os.Getenv("C18_DEBUG") != "" { fmt.Fprintf(os.Stderr, "ERR: %+v\n", err) }
+			if os.Getenv("C18_DEBUG") != "" {
+				fmt.Fprintf(os.Stderr, "ERR: %+v\n", err)
+			}
 			done <- L(N(1), S(errClass18(err)))
 			return
 		}
@@ -184,7 +187,9 @@ func run1805(in Sx) (out Sx) {
 			done <- L(N(1), S("walk"))
 			return
 		}
-		done <- L(N(0), L(paths...))
+		// what FollowLinks itself answers for the same requests (the include set that was merged)
+		fl := c18Follow(&c18FS{m: &MemFS{Roots: roots}}, reqs)
+		done <- L(N(0), L(paths...), fl)
 	}()
 	select {
 	case v := <-done:
@@ -385,6 +390,22 @@ func c18GenReqs(r *Rng, ents []c18Entry, names []string, clean bool) ([]string, 
 	if len(links) == 0 {
 		links = all
 	}
+	// paths with at least two components: real ones, and real ones reached through a link to
+	// one of their ancestors (l -> d gives l/x for d/x)
+	var deep []string
+	for _, e := range ents {
+		if strings.Contains(e.path, "/") {
+			deep = append(deep, e.path)
+			for _, l := range ents {
+				if l.isLnk && strings.HasPrefix(e.path, strings.TrimPrefix(l.node.Stat.Linkname, "/")+"/") && !strings.Contains(l.path, "/") {
+					deep = append(deep, l.path+strings.TrimPrefix(e.path, strings.TrimPrefix(l.node.Stat.Linkname, "/")))
+				}
+			}
+		}
+	}
+	if len(deep) == 0 {
+		deep = all
+	}
 	n := 1 + r.Intn(3)
 	if r.Chance(4) {
 		n = 0
@@ -429,10 +450,15 @@ func c18GenReqs(r *Rng, ents []c18Entry, names []string, clean bool) ([]string, 
 		case k < 95: // wildcard in a middle component
 			w := Pick(r, []string{"*", "?", "a*", "[d-f]"})
 			q, c = w+"/"+Pick(r, names), "wild-mid"
-			if r.Chance(50) { // aim at an existing entry: replace one middle component by a wildcard
-				parts := strings.Split(Pick(r, all), "/")
+			if r.Chance(60) { // aim at an existing entry: replace one middle component by a wildcard
+				// that the real name matches (any pattern, or one derived from the name itself)
+				parts := strings.Split(Pick(r, deep), "/")
 				if len(parts) >= 2 {
-					parts[r.Intn(len(parts)-1)] = w
+					j := r.Intn(len(parts) - 1)
+					if r.Bool() {
+						w = c18PatternFor(r, parts[j])
+					}
+					parts[j] = w
 					q = strings.Join(parts, "/")
 				}
 			} else if r.Chance(40) {
@@ -452,6 +478,27 @@ func c18GenReqs(r *Rng, ents []c18Entry, names []string, clean bool) ([]string, 
 		cls = "none"
 	}
 	return reqs, cls
+}
+
+// c18PatternFor: a glob pattern without escapes that matches the given name: its first byte
+// kept and the rest replaced by '*', every byte replaced by '?', or a class around the first byte.
+func c18PatternFor(r *Rng, name string) string {
+	if name == "" || strings.ContainsAny(name, "*?[\\") || name[0] >= 0x80 {
+		return "*"
+	}
+	switch r.Intn(3) {
+	case 0:
+		return name[:1] + "*"
+	case 1:
+		if utf8.ValidString(name) {
+			return strings.Repeat("?", utf8.RuneCountInString(name))
+		}
+		return "*"
+	}
+	if c := name[0]; (c >= 'a' && c <= 'z') || (c >= '0' && c <= '9') {
+		return "[" + name[:1] + "]*"
+	}
+	return name[:1] + "*"
 }
 
 func c18Input(roots []*MNode, reqs []string) Sx {
@@ -533,7 +580,7 @@ func genC18(g *Gen) {
 			g.Emit(0x1804, in, nontriv, "disk/"+oc)
 		}
 		// (c) end to end through NewFilterFS (a sample)
-		if i%4 == 1 {
+		if i%4 == 1 || strings.HasSuffix(cls, "wild-mid") {
 			g.Emit(0x1805, in, nontriv, "filter/"+oc)
 		}
 	}
